@@ -3,11 +3,13 @@ import YkDrv.ResDrv
 import YkDrv.RingDrv
 import YkDrv.NodeDrv
 import YkDrv.StreamDrv
+import YkDrv.QueueDrv
 open Lean YkDrv
 
 structure DrvState where
   ring : RingSt := {}
   node : NodeSt := {}
+  queue : QueueSt := {}
 
 def dispatch (st : DrvState) (j : Json) : Except String (DrvState × String) := do
   let c ← (fld j "c") >>= jStr
@@ -15,6 +17,7 @@ def dispatch (st : DrvState) (j : Json) : Except String (DrvState × String) := 
   | "res" => pure (st, ← resStep j)
   | "ring" => let (r, v) ← ringStep st.ring j; pure ({ st with ring := r }, v)
   | "stream" => pure (st, ← streamStep j)
+  | "queue" => let (r, v) ← queueStep st.queue j; pure ({ st with queue := r }, v)
   | "node" => let (r, v) ← nodeStep st.node j; pure ({ st with node := r }, v)
   | _ => pure (st, "bad-op")
 
